@@ -301,6 +301,26 @@ func renderer14(c *Check, fn *ssa.Function) {
 	// subjects is a fresh copy
 	if len(ev.Ctors) == 1 {
 		_, isMk := strip(ev.Ctors[0].Call.Args[3]).(*ssa.MakeMap)
+		if hc, isCall := strip(ev.Ctors[0].Call.Args[3]).(*ssa.Call); isCall && !isMk {
+			// a repository helper all of whose returns yield a map it made itself
+			if sc := staticCallee(hc.Common()); sc != nil && InRepo(sc) && sc.Blocks != nil {
+				isMk = true
+				nret := 0
+				allInstrs(sc, func(in ssa.Instruction) {
+					if ret, isRet := in.(*ssa.Return); isRet {
+						nret++
+						if len(ret.Results) != 1 {
+							isMk = false
+						} else if _, fresh := strip(ret.Results[0]).(*ssa.MakeMap); !fresh {
+							isMk = false
+						}
+					}
+				})
+				if nret == 0 {
+					isMk = false
+				}
+			}
+		}
 		c.Cond(isMk, "renderer-pure", name+": subjects map handed to the event", p.InstrPos(ev.Ctors[0]), "a fresh map filled from the login's subjects", "the login's own subjects map is handed to the event: anything that later writes the event's subjects alters the stored login")
 	}
 	// no calls with side effects on the receiver other than the constructor helpers
@@ -317,7 +337,51 @@ func renderer14(c *Check, fn *ssa.Function) {
 			return
 		}
 		if InRepo(sc) {
-			c.Unk("renderer-pure", name+": call of "+sc.Name(), p.InstrPos(in), "effects of repository helper not analysed")
+			// a repository helper: it must not write memory reachable from
+			// its arguments, nor package-level state
+			bad := ""
+			for _, prm := range sc.Params {
+				if at := storesIntoParam(p, sc, prm, 0); at != "" {
+					bad = "stores into memory reachable from its argument " + prm.Name() + " at " + at
+				}
+			}
+			allInstrs(sc, func(hi ssa.Instruction) {
+				var addr ssa.Value
+				switch y := hi.(type) {
+				case *ssa.Store:
+					addr = y.Addr
+				case *ssa.MapUpdate:
+					addr = y.Map
+				case *ssa.Go:
+					bad = "starts a goroutine"
+				default:
+					return
+				}
+				for addr != nil {
+					switch b := addr.(type) {
+					case *ssa.FieldAddr:
+						addr = b.X
+						continue
+					case *ssa.IndexAddr:
+						addr = b.X
+						continue
+					case *ssa.UnOp:
+						addr = b.X
+						continue
+					case *ssa.Global:
+						bad = "writes package-level state " + b.Name()
+					}
+					break
+				}
+			})
+			if sc.Blocks == nil {
+				bad = "has no body to analyse"
+			}
+			if bad == "" {
+				c.OK("renderer-pure", name+": call of "+sc.Name(), p.InstrPos(in), "the helper writes only memory it creates")
+			} else {
+				c.Bad("renderer-pure", name+": call of "+sc.Name(), p.InstrPos(in), "helper "+sc.Name()+" "+bad+": rendering an event has an effect on stored state")
+			}
 		}
 	})
 }
